@@ -174,12 +174,47 @@ Definition side_okb (host : hostg) (p : prepared) : bool :=
   && nodupb (node_ids (p_rc p)) && simple_edgesb (gedges (p_rc p)) && closedb (p_rc p)
   && forallb (fun u => LGraph.mem u (node_ids (p_rc p))) (node_ids (p_pat p)).
 
+(** the limit-free component-aware computation and its longest intermediate list (= [comp_unl] / [comp_bound] of
+    proof/C06_Comp.v, restated here so that the run function can evaluate the premise of the set-level theorem for the
+    COMPONENT / BACKTRACK strategies; proved equal in proof/C05_AllStrat.v) *)
+Section Bound.
+  Variable enum : list N -> list N -> list C06_Model.mapping.
+  Definition c_percc (cands : list (nat * list N)) (pc : list N) : list (nat * C06_Model.mapping) :=
+    flat_map (fun ih => map (pair (fst ih)) (enum (snd ih) pc)) cands.
+  Definition c_cands (hcs : list (nat * list N)) (pc : list N) : list (nat * list N) :=
+    filter (fun ih => length pc <=? length (snd ih))%nat hcs.
+  Definition c_percc_of (H : C06_Model.graph) (pc : list N) : list (nat * C06_Model.mapping) :=
+    c_percc (c_cands (C06_Model.index_from 0 (C06_Model.comps H)) pc) pc.
+  Fixpoint c_bt_unl (ordered : list (list (nat * C06_Model.mapping))) (used : list nat) (acc : C06_Model.mapping)
+    : list C06_Model.mapping :=
+    match ordered with
+    | [] => [acc]
+    | lvl :: rest =>
+        flat_map (fun hm => if C06_Model.memnat (fst hm) used || C06_Model.clash (snd hm) acc then []
+                            else c_bt_unl rest (fst hm :: used) (snd hm ++ acc)) lvl
+    end.
+  Definition c_comp_unl (strict : bool) (H P : C06_Model.graph) : list C06_Model.mapping :=
+    let hcc := length (C06_Model.comps H) in
+    let pcc := length (C06_Model.comps P) in
+    if (pcc =? 0)%nat then [[]]
+    else if (hcc <? pcc)%nat then enum (node_ids H) (node_ids P)
+    else if (pcc <? hcc)%nat && strict then []
+    else c_bt_unl (C06_Model.sort_len (map (c_percc_of H) (C06_Model.comps P))) [] [].
+  Definition c_comp_bound (strict : bool) (H P : C06_Model.graph) : N :=
+    fold_right N.max (C06_Model.lenN (c_comp_unl strict H P))
+               (map (fun pc => C06_Model.lenN (c_percc_of H pc)) (C06_Model.comps P)).
+End Bound.
+
+Definition side_okb_c (host : hostg) (p : prepared) : bool :=
+  let H := host_c06 host in let P := pat_c06 (p_pat p) in
+  side_okb host p && (c_comp_bound (monos_on' H P) true H P <=? DEFAULT_THRESHOLD)%N.
+
 Definition t_variant (invert implicit_temp explicit_stage : bool) (strats : list N) (v : hostg * its) : tok :=
   match prepare invert implicit_temp (snd v) with
   | None => L [I (-1)]
   | Some p =>
       L [trc (negb implicit_temp) (p_rc p); tbool (p_flag p); tmolg (p_pat p);
-         tbool (hc_okb (fst v) p && wf_rcb (p_rc p) && wf_hostb (fst v) && (p_flag p || side_okb (fst v) p));
+         tbool (hc_okb (fst v) p && wf_rcb (p_rc p) && wf_hostb (fst v) && (p_flag p || side_okb_c (fst v) p));
          tlist (t_strategy explicit_stage (fst v) p) strats]
   end.
 
